@@ -513,7 +513,7 @@ class LoadMixin(AbstractLoaderGenerator, BaseLoadHook):
 
                 tn = tp_new.type_name(extras)
                 type_checks.extend([
-                    f'if tp is {tn}:',
+                    f'if v1_tp is {tn}:',
                     '  return v1'
                 ])
                 list_to_add = try_parse_at_end
@@ -544,7 +544,11 @@ class LoadMixin(AbstractLoaderGenerator, BaseLoadHook):
                     f"valid_tags={list(dataclass_tag_to_lines)})"
                 )
 
-        fn_gen.add_line('tp = type(v1)')
+        # Note: don't name this variable `tp`, as the code generated
+        # by `load_to_int` assigns to `tp` (via a walrus expression),
+        # which would overwrite the type of `v1` while parsing e.g. a
+        # `list[int]` member of the `Union`.
+        fn_gen.add_line('v1_tp = type(v1)')
 
         if type_checks:
             fn_gen.add_lines(*type_checks)
